@@ -100,7 +100,7 @@ Proof.
   eapply okv_bind; [apply okv_any |]. intros _ _ i x r0 H0. inversion H0; subst. exact Hb.
 Qed.
 
-Lemma okv_try_map : forall A B (p : parser A) (f : A -> option B) (P : B -> Prop),
+Lemma okv_try_map_some : forall A B (p : parser A) (f : A -> option B) (P : B -> Prop),
   ok_val p (fun a => forall b, f a = Some b -> P b) -> ok_val (try_map p f) P.
 Proof.
   intros A B p f P Hp i b r H. unfold try_map in H.
@@ -109,35 +109,54 @@ Proof.
   eapply Hp; eauto.
 Qed.
 
-(* an invariant of the operands that a fold step keeps is an invariant of the chain *)
-Lemma okv_chain_loop : forall (op : parser s_binop) (operand : parser s_expr) (P : s_expr -> Prop),
-  ok_val operand P ->
-  (forall o l r, P l -> P r -> fits_under (Nat.max (expr_height l) (expr_height r)) = true ->
-                 P (SBinary o l r)) ->
+(* an invariant of a chain: P of the folded left part, Q of the operands, the operators
+   classified by isop; a fold step may rely on the height check having passed *)
+Lemma okv_chain_loop_gen : forall (op : parser s_binop) (operand : parser s_expr)
+    (P Q : s_expr -> Prop) (isop : s_binop -> bool),
+  ok_val operand Q -> ok_val op (fun o => isop o = true) ->
+  (forall o l r, P l -> isop o = true -> Q r ->
+                 fits_under (Nat.max (expr_height l) (expr_height r)) = true -> P (SBinary o l r)) ->
   forall f lhs, P lhs -> ok_val (chain_loop f op operand lhs) P.
 Proof.
-  intros op operand P Hop Hstep. induction f; intros lhs Hl i e r H; cbn [chain_loop] in H.
+  intros op operand P Q isop Hop Hsp Hstep.
+  assert (Hsep : ok_val (delimited space0 op space0) (fun o => isop o = true))
+    by (apply okv_delimited; exact Hsp).
+  induction f; intros lhs Hl i e r H; cbn [chain_loop] in H.
   - destruct (delimited space0 op space0 i) as [b m | [] l m | |]; try discriminate.
     + destruct (operand m) as [a m' | [] l m' | |]; try discriminate.
       * destruct (fits_under _); discriminate.
       * inversion H; subst; assumption.
     + inversion H; subst; assumption.
-  - destruct (delimited space0 op space0 i) as [b m | [] l m | |]; try discriminate.
+  - destruct (delimited space0 op space0 i) as [b m | [] l m | |] eqn:ES; try discriminate.
     + destruct (operand m) as [a m' | [] l m' | |] eqn:E; try discriminate.
       * destruct (fits_under _) eqn:F; [| discriminate].
-        eapply IHf; [| eassumption]. apply Hstep; auto. eapply Hop; eassumption.
+        eapply IHf; [| eassumption].
+        apply Hstep; [assumption | eapply Hsep; eauto | eapply Hop; eauto | exact F].
       * inversion H; subst; assumption.
     + inversion H; subst; assumption.
 Qed.
+Lemma okv_infixl_e_gen : forall fuel op operand (P Q : s_expr -> Prop) (isop : s_binop -> bool),
+  ok_val operand Q -> ok_val op (fun o => isop o = true) ->
+  (forall e, Q e -> P e) ->
+  (forall o l r, P l -> isop o = true -> Q r ->
+                 fits_under (Nat.max (expr_height l) (expr_height r)) = true -> P (SBinary o l r)) ->
+  ok_val (infixl_e fuel op operand) P.
+Proof.
+  intros fuel op operand P Q isop Hop Hsp Hin Hstep i e r H. unfold infixl_e in H.
+  destruct (operand i) as [a m | | |] eqn:E; try discriminate.
+  eapply okv_chain_loop_gen; [exact Hop | exact Hsp | exact Hstep | | eassumption].
+  apply Hin. eapply Hop; eauto.
+Qed.
+(* the same invariant of operands and chain *)
 Lemma okv_infixl_e : forall fuel op operand (P : s_expr -> Prop),
   ok_val operand P ->
   (forall o l r, P l -> P r -> fits_under (Nat.max (expr_height l) (expr_height r)) = true ->
                  P (SBinary o l r)) ->
   ok_val (infixl_e fuel op operand) P.
 Proof.
-  intros fuel op operand P Hop Hstep i e r H. unfold infixl_e in H.
-  destruct (operand i) as [a m | | |] eqn:E; try discriminate.
-  eapply okv_chain_loop; [eassumption | exact Hstep | | eassumption]. eapply Hop; eassumption.
+  intros fuel op operand P Hop Hstep.
+  apply okv_infixl_e_gen with (Q := P) (isop := fun _ => true); auto.
+  intros i o r _. reflexivity.
 Qed.
 Lemma okv_unary_e : forall ve (Q : s_vexpr -> Prop) (P : s_expr -> Prop),
   ok_val ve Q ->
@@ -148,7 +167,7 @@ Proof.
   intros ve Q P Hve Hval Hneg i e r H. unfold unary_e in H. destruct i as [| c t]; [discriminate |].
   destruct (N.eqb c 45).
   - assert (G : ok_val (negate_e ve) P).
-    { unfold negate_e. apply okv_try_map. unfold preceded.
+    { unfold negate_e. apply okv_try_map_some. unfold preceded.
       eapply okv_bind; [apply okv_any |]. intros _ _ j v r' Hv b Hb.
       destruct (fits_under (vexpr_height v)) eqn:F; [| discriminate]. inversion Hb; subst.
       apply Hneg; [eapply Hve; eauto | exact F]. }
@@ -162,7 +181,7 @@ Lemma okv_paren_e : forall add (P : s_expr -> Prop) (Q : s_vexpr -> Prop),
   (forall e, P e -> fits_under (expr_height e) = true -> Q (SParen e)) ->
   ok_val (paren_e add) Q.
 Proof.
-  intros add P Q Hadd Hp. unfold paren_e. apply okv_try_map. unfold paren.
+  intros add P Q Hadd Hp. unfold paren_e. apply okv_try_map_some. unfold paren.
   apply okv_delimited, okv_delimited. intros j e r' He b Hb.
   destruct (fits_under (expr_height e)) eqn:F; [| discriminate]. inversion Hb; subst.
   apply Hp; [eapply Hadd; eauto | exact F].
